@@ -108,11 +108,29 @@ def run_batches(runs, name, bindir, par=6, per=40):
 # ---------------------------------------------------------------------------------------------------------------------
 # projecting a recorded run onto the vocabulary of the trace specification
 
-def names_of_msg(text):
-    """error text -> set of subsystems it names, None if it is not a concatenation of complete lines"""
+def shown(msg):
+    """a module status message as AgentStatusSharedState::get_module_status hands it out (cut at 1024 bytes on a
+    character boundary, '...')"""
+    b = msg.encode("utf-8")
+    if len(b) <= 1024:
+        return msg
+    end = 1024
+    while end > 0 and (b[end] & 0xC0) == 0x80:
+        end -= 1
+    return b[:end].decode("utf-8") + "..."
+
+
+def xml_escape(t):
+    return t.replace("&", "&amp;").replace("'", "&apos;").replace('"', "&quot;").replace("<", "&lt;").replace(">", "&gt;")
+
+
+def names_of_msg(text, msgs=None, escaped=False):
+    """error text -> set of subsystems it names, None if it is not a concatenation of complete lines (one per
+    subsystem, redirector / key latch / listener order, each carrying that module's status message)"""
+    msgs = msgs or MSGTXT
     names, rest = [], text
     for s in ("R", "K", "L"):
-        line = PREFIX[s] + MSGTXT[s] + "\r\n"
+        line = PREFIX[s] + (xml_escape(shown(msgs[s])) if escaped else shown(msgs[s])) + "\r\n"
         if rest.startswith(line):
             names.append(s)
             rest = rest[len(line):]
@@ -122,10 +140,10 @@ def names_of_msg(text):
     return names if rest == "" else None
 
 
-def tag_rec(content):
+def tag_rec(content, msgs=None):
     if content is None:
         return {"k": "absent", "n": []}
-    n = names_of_msg(content)
+    n = names_of_msg(content, msgs, escaped=True)       # write_provision_state xml-escapes what it writes
     return {"k": "file", "n": n} if n is not None else {"k": "garbage", "n": []}
 
 
@@ -148,11 +166,12 @@ START_OF = {"U": "upd", "R": "reset", "T": "tstate", "Q": "qfin"}
 
 def rows_of(run_id, events):
     """rows for ProvisionTrace + per-message observation records (for the S->I comparison and the artefacts)"""
-    rows, obs, T, desync = [{"e": "run", "id": str(run_id)}], [], [], None
+    rows, obs, T, desync, msgs = [{"e": "run", "id": str(run_id)}], [], [], None, None
     for e in events:
         k = e["e"]
         if k == "Run":
             T = [int(e["T"])]
+            msgs = e.get("msgs")
         elif k == "Tick":
             T.append(int(e["T"]))
             rows.append({"e": "tick"})
@@ -163,7 +182,7 @@ def rows_of(run_id, events):
             obs.append({"t": e["t"], "i": e["i"], "a": "skip", "x": "-", "exp": e["a"]})
         elif k == "TagObs":
             for o in e["obs"]:
-                rows.append({"e": "tagobs", "tag": tag_rec(o["tag"]), "ino": o.get("ino", 0), "sameino": bool(o.get("tag_same_inode")),
+                rows.append({"e": "tagobs", "tag": tag_rec(o["tag"], msgs), "ino": o.get("ino", 0), "sameino": bool(o.get("tag_same_inode")),
                              "changed": bool(o.get("tag_changed")), "oldfd": o.get("tag_oldfd") is not None})
             obs.append({"t": "-", "i": 0, "a": "tagobs", "x": "-", "seen": [o["tag"] for o in e["obs"]]})
         elif k == "Step":
@@ -175,7 +194,7 @@ def rows_of(run_id, events):
             first = (not env_step) and e.get("stage") == 1
             r = {"e": "step", "t": e["t"], "i": e["i"], "op": op, "g": g, "first": first, "done": done,
                  "x": "-" if env_step else e.get("sub", "-"), "flags": flag_names(e["flags"]), "fin": fin,
-                 "latch": bool(e["latch"]), "tag": tag_rec(e["tag"]), "sameino": bool(e.get("tag_same_inode")),
+                 "latch": bool(e["latch"]), "tag": tag_rec(e["tag"], msgs), "sameino": bool(e.get("tag_same_inode")),
                  "changed": bool(e.get("tag_changed")), "oldfd": e.get("tag_oldfd") is not None, "wait": False, "sameq": True}
             o = {"t": e["t"], "i": e["i"], "a": e["a"], "x": e["x"], "op": op, "g": g, "stage": e.get("stage", 0),
                  "flags": r["flags"], "fin": fin, "tag": r["tag"], "out": e["out"], "nowait": bool(e.get("nowait")),
@@ -203,7 +222,7 @@ def rows_of(run_id, events):
                     if e.get("status") != 200:
                         raise util.ToolError("query %s of run %s: HTTP status %s %s" % (e["i"], run_id, e.get("status"), e.get("err")))
                     body = json.loads(e["body"])
-                    nm = names_of_msg(body["errorMessage"])
+                    nm = names_of_msg(body["errorMessage"], msgs)
                     ans = {"finished": bool(body["finished"]), "names": nm if nm is not None else ["?"], "lat": bool(e["latch"])}
                     r.update(ans)
                     o.update(ans, raw=body["errorMessage"])
@@ -327,6 +346,8 @@ def signature(prop, rows, race_writers=0):
     if prop in ("TagAtomic", "TagRenameOnly"):
         if race_writers >= 2:
             return {"kind": "shared-tag-tmp"}
+        if race_writers == 0 and prop == "TagAtomic":
+            return {"kind": "tag-content-not-a-complete-message"}
         return {"kind": "tag-not-replaced-atomically", "writers": race_writers}
     return {"kind": {"QueryComplete": "finished-not-reported", "ErrorText": "error-text-not-exact",
                      "FinishedOnlyAfter": "finished-without-cause"}.get(prop, prop)}
@@ -406,6 +427,53 @@ def wait_histories():
     out.append(whole("ls", "upd") + [tick] + waitq(1, 3) + whole("rd", "upd") + waitq(2, 2))
     out.append(whole("ls", "upd") + [{"t": "env", "i": 0, "a": "latch", "x": "on"}, tick] + waitq(1, 2))
     return out
+
+
+def long_messages():
+    """module status messages around the 1024-byte limit of the agent status (900..1100 bytes, ASCII and multi-byte
+    with the cut falling inside a character), as the redirector's eBPF loader output or a key keeper error would be"""
+    def fill(unit, n):
+        out = ""
+        while len((out + unit).encode("utf-8")) <= n:
+            out += unit
+        return out
+    sets = []
+    for n in (900, 1000, 1023, 1024, 1025, 1100):
+        sets.append({"R": fill("bpf verifier: R1 invalid mem access 'scalar'; ", n), "K": "kk-not-ready", "L": "ls-not-ready"})
+    sets.append({"R": "rd-not-ready", "K": fill("key status 503 from 168.63.129.16, retrying; ", 1100), "L": "ls-not-ready"})
+    sets.append({"R": fill("x", 1023) + "\u00e9\u00e9", "K": fill("\u6f22\u5b57", 1000), "L": fill("bind 127.0.0.1:3080 failed \u2014 ", 1050)})
+    sets.append({"R": fill("\u6f22", 1100), "K": fill("y", 950), "L": fill("z", 1024)})
+    sets.append({"R": fill("r", 1030), "K": fill("k", 1030), "L": fill("l", 1030)})
+    return sets
+
+
+def text_subsets(msgs):
+    """sequential schedules that make every subset of subsystems the not-ready set of some error text: in status.tag
+    (deadline handler; also before the listener is up, so the listener can be among them) and in query answers"""
+    sub = {"rd": "R", "ls": "L", "kk": "K"}
+
+    def whole(t, a):
+        return [{"t": t, "i": 0, "a": a, "x": sub[t] if a != "tstate" else "-"}, {"t": t, "i": 0, "a": "drain", "x": "-"}]
+    tick = {"t": "env", "i": 0, "a": "tick", "x": "-"}
+    n = [0]
+
+    def ask():
+        n[0] += 1
+        return [{"t": "q", "i": n[0], "a": "ask", "x": "past", "q": {"q": 1}}]
+    out = []
+    # tag {R,K,L}; answers {R,K}, {K}; tag {K}; answer {}
+    out.append([tick] + whole("kk", "tstate") + whole("ls", "upd") + ask() + whole("rd", "upd") + ask() + whole("kk", "tstate")
+               + whole("kk", "upd") + ask())
+    n[0] = 0
+    # answers {R,K}, {R}; tag {R}; reset: answer {R,K}, tag {R,K}; answer {K}
+    out.append(whole("ls", "upd") + ask() + whole("kk", "upd") + ask() + [tick] + whole("kk", "tstate") + whole("kk", "reset") + ask()
+               + whole("kk", "tstate") + whole("rd", "upd") + ask())
+    n[0] = 0
+    # tags {K,L}, {L}; then {R,L} needs another run
+    out.append(whole("rd", "upd") + [tick] + whole("kk", "tstate") + whole("kk", "upd") + whole("kk", "tstate") + whole("ls", "upd") + ask())
+    n[0] = 0
+    out.append(whole("kk", "upd") + [tick] + whole("kk", "tstate") + whole("ls", "upd") + ask() + whole("kk", "reset") + ask())
+    return [{"steps": st, "msgs": msgs} for st in out]
 
 
 def overtake_probes():
@@ -551,6 +619,14 @@ def run(c):
         rid = "probe%d" % n
         runs.append({"id": rid, "mode": "replay", "steps": st})
         meta[rid] = {"kind": "probe", "steps": st}
+    # 4c. the error text with long / multi-byte module status messages, every subset of not-ready subsystems
+    ntext = 0
+    for m_ in long_messages():
+        for t_ in text_subsets(m_):
+            rid = "text%d" % ntext
+            ntext += 1
+            runs.append({"id": rid, "mode": "replay", "steps": t_["steps"], "msgs": m_})
+            meta[rid] = {"kind": "probe", "steps": t_["steps"], "msgs": m_}
     by = run_batches(runs, "c16", bindir)
     missing = [r["id"] for r in runs if r["id"] not in by]
     if missing:
@@ -641,6 +717,8 @@ def run(c):
                 art = {"id": rid + "_again", "mode": "replay", "steps": m["steps"], "settle_ms": 1700}
             elif m["kind"] in ("auto", "probe"):
                 art = {"id": rid + "_again", "mode": "replay", "steps": schedule_of(robs[rid][1], robs[rid][0])}
+                if m.get("msgs"):
+                    art["msgs"] = m["msgs"]
             else:
                 art = {"id": rid + "_again", "mode": "replay", "steps": m["hist"]}
             again = run_driver([art], "c16_again_%s" % rid, bindir, strace=(400, 300) if m["kind"] == "race" else None,
@@ -683,7 +761,7 @@ def run(c):
     if PANICS:
         c.extra["panics_outside_provisioning"] = PANICS[:5]
     c.extra["replays"] = {"spec_behaviours": len(hists), "counterexample_schedules": len([x for x in cands if x[0] not in FILE_TAGS]),
-                          "driver_random": nauto, "overtake_probes": len(probes), "file_step_races": len(races),
+                          "driver_random": nauto, "overtake_probes": len(probes), "long_message_texts": ntext, "file_step_races": len(races),
                           "runs_conforming_to_spec": len(hists) + len([x for x in cands if x[0] not in FILE_TAGS]) - len(drift)}
     if unrepro:
         c.extra["unreproduced"] = unrepro
